@@ -123,8 +123,39 @@ def make_config(spec):
     return cfg
 
 
+TURTLE_EXAMPLE = "/repo/examples/turtlemd/double_well"
+
+
+def make_turtle_config(spec):
+    """The repository's own double-well example (TurtleMD, Langevin)."""
+    with open("/repo/test/simulations/data/wf.toml", "rb") as f:
+        cfg = tomli.load(f)
+    cfg["runner"] = {"workers": spec.get("workers", 1)}
+    sim = cfg["simulation"]
+    sim["steps"] = spec["steps"]
+    sim["seed"] = spec.get("seed", 0)
+    if spec.get("moves"):
+        sim["shooting_moves"] = spec["moves"]
+    sim["tis_set"]["allowmaxlength"] = bool(spec.get("allowmaxlength", False))
+    sim["tis_set"]["maxlength"] = spec.get("maxlength", 2000)
+    sim["tis_set"]["n_jumps"] = spec.get("n_jumps", 2)
+    cfg["output"] = {"data_dir": "./", "screen": 1, "pattern": False,
+                     "delete_old": bool(spec.get("delete_old", False))}
+    if spec.get("delete_old_all"):
+        cfg["output"]["delete_old_all"] = True
+    return cfg
+
+
 def make_case_dir(spec, cdir):
     os.makedirs(cdir, exist_ok=True)
+    if spec.get("engine") == "turtlemd":
+        cfg = make_turtle_config(spec)
+        with open(os.path.join(cdir, "infretis.toml"), "wb") as f:
+            tomli_w.dump(cfg, f)
+        shutil.copytree(os.path.join(TURTLE_EXAMPLE, "load_copy"),
+                        os.path.join(cdir, "load"))
+        shutil.copy(os.path.join(TURTLE_EXAMPLE, "orderp.py"), cdir)
+        return cfg
     cfg = make_config(spec)
     with open(os.path.join(cdir, "infretis.toml"), "wb") as f:
         tomli_w.dump(cfg, f)
@@ -373,6 +404,19 @@ def install_patches():
     wrap_method("sort_trajstate", "before_sort", "after_sort", None)
     wrap_method("swap", "before_swap", None, None)
     wrap_method("write_toml", None, "after_write_toml", None)
+
+    # the P matrix the program actually uses (cache included)
+    orig_prob = REPEX_state.prob
+    _PATCHED["prob"] = orig_prob
+
+    def _prob(self):
+        out = orig_prob.fget(self)
+        rig = Rig.current
+        if rig is not None and rig.state is self:
+            rig.hook("after_prob", self, out)
+        return out
+
+    REPEX_state.prob = property(_prob)
 
     orig_w2p = irepex.write_to_pathens
     _PATCHED["write_to_pathens"] = orig_w2p
